@@ -21,8 +21,10 @@ the terminal type exported by urwid's Terminal widget, TERM=linux, implements):
     *foreground* of an erased blank (it has no visible ink): fg is the wildcard ANY.
   * last-column flag ("wrap pending") after ED/EL/ICH/DCH/IL/DL/HT or BS in column 1: DEC STD 070,
     xterm and Linux differ, so the flag becomes unknown (None) and printing a character in that
-    state raises Ambiguous.  CR, LF/VT/FF, IND, NEL, RI, BS that moves, CUP/CUU/CUD/CUF/CUB and
-    DECSTBM clear it in all three.
+    state raises Ambiguous.  CR, BS that moves, CUP/CUU/CUD/CUF/CUB and DECSTBM clear it in all
+    three.  LF/VT/FF, IND, NEL, RI: xterm (CursorDown/CursorUp -> ResetWrap) and the Linux console
+    (lf()/ri(): need_wrap = 0) clear it and DEC STD 070 lists them among the explicit cursor movements
+    that reset the flag; modelled as clearing (recorded as a reading in the C15 report).
   * DECSTBM with bottom > screen height (xterm clamps, Linux ignores), IL/DL with the cursor above the
     scrolling region (DEC/xterm ignore, Linux acts on cursor..bottom): Ambiguous.
 """
